@@ -156,6 +156,7 @@ def plan(ctx):
     from checks import gen_proc
     rng = ctx["rng"]
     batches.append(("stale", [("st%d" % i, gen_proc.stale_tick_history(rng)) for i in range(30 if ctx["tier"] == "quick" else 1500)]))
+    batches.append(("window", [("win%d" % i, gen_proc.window_history(rng)) for i in range(20 if ctx["tier"] == "quick" else 800)]))
     ops = []
     for _ in range(300 if ctx["tier"] == "quick" else 6000):
         o = c9.gen_op(rng)
